@@ -22,7 +22,11 @@ This snapshot of the code has no ReconnectedMsg: a re-registering engine gets it
 FromEngine._try_restore_reconnected_engine_data from the RecentEngine row written by engine_disconnected /
 Aggregator.shutdown, so "re-register" *is* the reconnect event.
 
-A *state* is an event history; `build(hist)` creates everything afresh and replays it.  Each step appends an
+A *state* is an event history; `build(hist)` creates everything afresh and replays it (about 0.7 ms per event: one
+event loop and one SQLAlchemy Engine per process, the database itself is replaced per history by loading the image of
+the empty schema, created once by the real metadata.create_all, with sqlite3 deserialize).  `Explorer` is a
+level-synchronous BFS: small levels run in the parent, large ones through ctx.pmap (every worker rebuilds its histories
+independently and returns a digest of the canonical state, the enabled events and the oracle verdict of the last step).  Each step appends an
 observation record (`Sys.obs`) with the harness-side facts ("model": what the engine did/sent) and what the
 aggregator holds afterwards (engine data projection + database rows); the oracles live in the check modules.
 
